@@ -532,8 +532,8 @@ def machine_case(cid, root, cost, depth, stack, hc=0, meta=None, idx=None, via="
 class C04(Prop):
     id = "C04"
     title = "Every evaluation is bounded by the configured limits"
-    lean_modules = ["NV.C04.Props", "NV.C04.Top", "NV.C04.Witness", "NV.C04.SpecTests"]
-    theorems = ["NV.C04.model_satisfies_spec", "NV.C04.exec_call_ok_unwound", "NV.C04.limit_error_not_swallowed", "NV.C04.limit_error_reaches_next_frame",
+    lean_modules = ["NV.C04.Props", "NV.C04.Top", "NV.C04.TopSizes", "NV.C04.Witness", "NV.C04.SpecTests"]
+    theorems = ["NV.C04.model_satisfies_spec", "NV.C04.szCmd_satisfies_spec", "NV.C04.szCmdC_satisfies_spec", "NV.C04.exec_call_ok_unwound", "NV.C04.limit_error_not_swallowed", "NV.C04.limit_error_reaches_next_frame",
                 "NV.C04.catch_reraises_limit_error", "NV.C04.eval_bounded", "NV.C04.eval_bounded_exact",
                 "NV.C04.eval_bounded_of_pos", "NV.C04.depth_bounded", "NV.C04.stack_checked_pushes_bounded",
                 "NV.C04.sizes_bounded", "NV.C04.replace_scan_in_bounds", "NV.C04.sprintf_bounded",
